@@ -55,3 +55,15 @@ Print Assumptions C12_length_raw_refuted.
 (* non-vacuity: a reachable amended state with an expunged and a nil entry satisfies Inv *)
 Example C12_nonvacuous : Inv ex_state /\ amended ex_state = true.
 Proof. destruct ex_nonvacuous as (H1 & H2 & _). split; assumption. Qed.
+
+(* ---- concurrent half: the linearizability monitor is sound and complete ---------- *)
+From DS Require Import Model.Linz Proofs.LinzProofs.
+
+(* linearizable h = true  <->  some permutation of the recorded events respects real-time
+   order (an event that returned before another was invoked comes first) and is a legal
+   sequential history of the ordinary-map specification with exactly the recorded results *)
+Theorem C12_linearizability_monitor_correct :
+  forall h, linearizable h = true <->
+    exists l, l ≡ₚ h /\ respects_rt l /\ seq_ok ∅ l.
+Proof. exact linearizable_correct. Qed.
+Print Assumptions C12_linearizability_monitor_correct.
